@@ -1,3 +1,29 @@
 import STProofs.Structure
-/-! # C14 — time shift and translation (proved, every N; translation for the cubic); scaling and reversal: NOT proved
-(decided on the implementation by exact power-of-two relations and the toleranced reversal check) -/
+import STProofs.CubicSym
+import STProofs.QuinticSym
+import STProofs.SepticSym
+/-!
+# C14 — time shift, translation, amplitude scaling, time scaling (every N, positive durations, all three orders)
+
+* time shift: `cumulative_shift`, `shift_invariant` (knot times shift, per-segment polynomials and all queries unchanged);
+* translation / amplitude scaling: `CubicTr.build_translate`, `CubicSym.build_scale`, `QuinticSym.build_affine`,
+  `SepticSym.build_affine` (waypoints `λ·P + a`, boundary states `λ·b` ⇒ coefficients `λ·c + (a,0,…)`), with
+  `energySeg_scale` / `energySeg_affine` (energy × λ², independent of `a`);
+* time scaling: `CubicSym/QuinticSym/SepticSym.build_timescale` (durations × μ, k-th boundary derivative ÷ μᵏ ⇒ `c_k / μᵏ`, the
+  same curve run at speed 1/μ), `energySeg_timescale` (energy × μ^-(2s−1)).
+
+The quintic / septic statements are obtained from the uniqueness theorems of C02 (`build_transform`): a transformation
+that maps Hermite closures to Hermite closures and preserves the optimality conditions maps the spline to the spline.
+
+NOT proved: time reversal (decided on the implementation by the exact reversal check with mirrored gradients).
+-/
+open ST
+
+/-- cubic, amplitude -/
+theorem C14_cubic_scale {K : Type} [Field K] [LinearOrder K] [IsStrictOrderedRing K]
+    (lam : K) (hs Ps : List K) (v0 vn : K) (hpos : PosList hs) :
+    Cubic.build hs (Ps.map (lam * ·)) (lam * v0) (lam * vn) = (Cubic.build hs Ps v0 vn).map (CubicSym.scC lam) :=
+  CubicSym.build_scale lam hs Ps v0 vn hpos
+
+/-- non-vacuity -/
+example : PosList ([1, 2, 1/2] : List ℚ) := by simp [PosList]
